@@ -66,6 +66,8 @@ S_CONC = {
     "astral": ["\U0001f600", "\U0001d4b3 math", "a\U0001f600b"],
     "surrogate": ["abc\udcff", "\udc80", "x\udcfe\udcffy"],
 }
+N_CONC = {"lower": ["charset"], "other": ["Charset", "CHARSET", "ChArSeT"]}
+NAME_CASE_PS = ("ascii", "latin-1", "utf-8", "unknown", "gb2312", "nontext")
 TS, PS, DS, SS = (tuple(x) for x in (T_CONC, P_CONC, D_CONC, S_CONC))
 
 
@@ -82,20 +84,21 @@ def concretise(sc):
     p = pick(P_CONC[sc["P"]], var // 2)
     ct = t
     if p is not None and t is not None:
-        ct = t + ("; charset=" if var % 2 == 0 else ";charset=") + p
+        name = pick(N_CONC[sc.get("N", "lower")], var)
+        ct = t + ("; " if var % 2 == 0 else ";") + name + "=" + p
     return ct, pick(D_CONC[sc["D"]], var) + pick(S_CONC[sc["S"]], var + var // 3)
 
 
 # ---- independent oracles (the trusted base) ------------------------------------------------------------------
 def parse_ct(value):
-    """Own Content-Type reader: ({param name lower: value without quotes})."""
+    """Own Content-Type reader: list of (parameter name as written, value without quotes)."""
     if value is None:
-        return {}
-    out = {}
+        return []
+    out = []
     for part in value.split(";")[1:]:
         if "=" in part:
             k, v = part.split("=", 1)
-            out.setdefault(k.strip().lower(), v.strip().strip('"'))
+            out.append((k.strip(), v.strip().strip('"')))
     return out
 
 
@@ -155,7 +158,7 @@ def run(sc):
     def intern(s):
         return ids.setdefault(s, len(ids) + 1)
 
-    ev = {"k": "settext", "T": sc["T"], "P": sc["P"], "D": sc["D"], "S": sc["S"], "arg": intern(text)}
+    ev = {"k": "settext", "T": sc["T"], "P": sc["P"], "N": sc.get("N", "lower"), "D": sc["D"], "S": sc["S"], "arg": intern(text)}
     try:
         msg.text = text
         ev["exc"] = ""
@@ -163,8 +166,11 @@ def run(sc):
         ev["exc"] = type(e).__name__
     after = msg.headers.get("content-type")
     params = parse_ct(after)
-    ev["rep"] = representable(text, params.get("charset")) if not ev["exc"] else True
-    ev["hascs"] = "charset" in params
+    exact = [v for k, v in params if k == "charset"]
+    anycase = [v for k, v in params if k.lower() == "charset"]
+    # least demanding reading of a header that may carry the parameter in several spellings
+    ev["rep"] = True if ev["exc"] else (not exact or any(representable(text, v) for v in anycase))
+    ev["hascs"] = bool(exact)
     ev["rawbom"] = raw_bom(msg.raw_content) if not sc.get("ce") else raw_bom(_plain(msg))
     ev["decl"] = decl_of(text)
     trace = [ev]
@@ -193,12 +199,14 @@ class Check(core.PropertyCheck):
     MODEL = "MsgText"
     MON = "Mon_MsgText"
     REQUIRED_WITNESSES = ("set", "charset_updated", "text_with_declaration", "body_with_bom", "surrogate_text",
-                          "roundtrip_ok", "roundtrip_ok_non_latin1")
+                          "fallback_beside_other_spelling", "other_spelling_kept", "roundtrip_ok", "roundtrip_ok_non_latin1")
     REQUIRED_ACTIONS = ("NewMsg", "SetGet")
     ASSUMPTIONS = (
         "strings are compared by interning (equality only); 'reading the text back' is the .text property (strict)",
         "rep (text representable in the charset declared after the call) uses Python's codecs with surrogateescape, "
-        "gb2312/gbk read as gb18030, parameter names case-insensitive, quotes stripped",
+        "gb2312/gbk read as gb18030, quotes stripped; when the header carries the parameter in several spellings "
+        "(charset= / Charset=) the least demanding reading is used: any of them may fit, and without a lower-case one "
+        "nothing is considered declared",
         "rawbom / decl / hascs are read from the raw body, the text and the header with the harness's own patterns; "
         "they only select the signature of a violation, never whether there is one",
         "input classes T, P, D, S are known by construction of the scenario",
@@ -209,7 +217,8 @@ class Check(core.PropertyCheck):
 
     def model_constants(self, tier):
         ts = [t for t in TS if tier != "quick" or t not in ("svg", "octet", "js")]  # quick: one family per code path
-        return {"Ts": frozenset(ts), "Ps": frozenset(PS), "Ds": frozenset(DS), "Ss": frozenset(SS)}
+        return {"Ts": frozenset(ts), "Ps": frozenset(PS), "Ds": frozenset(DS), "Ss": frozenset(SS),
+                "NameCasePs": frozenset(NAME_CASE_PS)}
 
     def scenarios(self, ctx, models):
         g = models[0].graph
@@ -224,7 +233,7 @@ class Check(core.PropertyCheck):
             pred = core.predicted_events(b)
             for var in range(nvar):
                 v = (var + ctx.rng.randrange(6)) if ctx.quick else var
-                yield core.Scenario({"T": str(a1[0]), "P": str(a1[1]), "D": str(a2[0]), "S": str(a2[1]), "var": v,
+                yield core.Scenario({"T": str(a1[0]), "P": str(a1[1]), "N": str(a1[2]), "D": str(a2[0]), "S": str(a2[1]), "var": v,
                                      "req": v % 2 == 1}, predicted=pred, source="model")
         rng = random.Random(ctx.seed * 104729 + 32)
         for _ in range(1500 if ctx.quick else 20000):
@@ -264,7 +273,7 @@ _ORDER = ["ascii", "latin1", "cjk", "gbk", "gbdiv", "bmp", "astral", "surrogate"
 def random_scenario(rng):
     T = rng.choice(TS)
     t = rng.choice(T_CONC[T])
-    P, p = "none", None
+    P, p, N = "none", None, "lower"
     if t is not None and rng.random() < 0.65 and T != "garbage":
         p = rng.choice(R_CHARSETS)
         P = "nontext" if p in _NONTEXT else p
@@ -274,7 +283,9 @@ def random_scenario(rng):
         if rng.random() < 0.2:
             params.append("boundary=xyz")
         if p is not None:
-            params.append("charset=" + p)
+            if rng.random() < 0.2:
+                N = "other"
+            params.append(rng.choice(N_CONC[N]) + "=" + p)
         if rng.random() < 0.15:
             params.append("format=flowed")
         for prm in params:
@@ -296,7 +307,7 @@ def random_scenario(rng):
             S = c
     if any("\udc80" <= ch <= "\udcff" for ch in text):
         S = "surrogate"
-    sc = {"T": T, "P": P, "D": D, "S": S, "ct": ct, "text": text, "req": rng.random() < 0.5}
+    sc = {"T": T, "P": P, "N": N, "D": D, "S": S, "ct": ct, "text": text, "req": rng.random() < 0.5}
     if rng.random() < 0.1:
         sc["ce"] = rng.choice(["gzip", "deflate"])
     return sc
